@@ -1110,6 +1110,96 @@ Proof.
   - exfalso. apply (Hns e). reflexivity.
 Qed.
 
+(* upper bounds: a call adds at most one element, and the capacity afterwards is the old
+   one, the minimum in force, or twice the old length *)
+Definition upstep (d d' : deque) : Prop :=
+  count d' <= count d + 1 /\ cap d' <= Z.max (cap d) (Z.max (cfg d') (2 * count d)).
+
+Lemma upstep_same d d' : cap d' = cap d -> count d' <= count d + 1 -> upstep d d'.
+Proof. intros E1 E2. split; [exact E2|lia]. Qed.
+
+Lemma resize_count d d' : resize nilv d = Some d' -> count d' = count d.
+Proof. unfold resize. intros H. unbind; subst d'; reflexivity. Qed.
+
+Lemma grow_upper d d1 : wf d -> grow_if_full nilv d = Some d1 ->
+  count d1 = count d /\ cap d1 <= Z.max (cap d) (Z.max (cfg d1) (2 * count d)).
+Proof.
+  intros (Hc & Hm & Hz & Hpos) H. unfold grow_if_full in H.
+  destruct (Z.eqb_spec (count d) (cap d)) as [Hfull|Hnf]; cbn [negb] in H.
+  2:{ injection H as <-. split; [reflexivity|lia]. }
+  destruct (Z.eqb_spec (cap d) 0) as [Hc0|Hcn].
+  - set (m := if minCap d =? 0 then collections_queue_minCapacity else minCap d) in *.
+    destruct (make nilv m) as [b|] eqn:Em; cbn [bind] in H; [|discriminate].
+    injection H as <-. apply make_length in Em. cbn [count]. split; [reflexivity|].
+    unfold cap, cfg. cbn [buf minCap]. rewrite Em.
+    assert (m <> 0).
+    { unfold m, collections_queue_minCapacity. destruct (Z.eqb_spec (minCap d) 0); lia. }
+    destruct (Z.eqb_spec m 0); lia.
+  - destruct (resize_cap _ _ H) as [E1 _]. rewrite (resize_count _ _ H). split; [reflexivity|lia].
+Qed.
+
+Lemma shrink_upper d d2 : shrink_if_excess nilv d = Some d2 ->
+  count d2 = count d /\ cap d2 <= Z.max (cap d) (2 * count d).
+Proof.
+  unfold shrink_if_excess. intros H.
+  destruct ((cap d >? minCap d) && (count d * 4 =? cap d)).
+  - destruct (resize_cap _ _ H) as [E1 _]. rewrite (resize_count _ _ H). split; [reflexivity|lia].
+  - injection H as <-. split; [reflexivity|lia].
+Qed.
+
+Lemma step_upper d o : wf d -> upstep d (fst (step d o)).
+Proof.
+  intros Hwf. pose proof Hwf as (Hc & Hm & Hz & Hpos).
+  assert (Hrefl : upstep d d) by (apply upstep_same; [reflexivity|lia]).
+  destruct o as [a|a| | | | |i|i a| |n|e]; cbn [step].
+  - unfold crash_or. destruct (push_back nilv d a) as [d'|] eqn:E; [|exact Hrefl]. cbn [fst].
+    unfold push_back in E. unbind. subst d'.
+    match goal with Hg : grow_if_full _ _ = Some ?d1, Hs : setz _ _ _ = Some _ |- _ =>
+      destruct (grow_upper _ _ Hwf Hg) as (G0 & G1); pose proof (setz_length _ _ _ _ Hs) as Hl end.
+    unfold upstep, cfg, cap in *. cbn [buf minCap count] in *. rewrite Hl. split; lia.
+  - unfold crash_or. destruct (push_front nilv d a) as [d'|] eqn:E; [|exact Hrefl]. cbn [fst].
+    unfold push_front in E. unbind. subst d'.
+    match goal with Hg : grow_if_full _ _ = Some ?d1, Hs : setz _ _ _ = Some _ |- _ =>
+      destruct (grow_upper _ _ Hwf Hg) as (G0 & G1); pose proof (setz_length _ _ _ _ Hs) as Hl end.
+    unfold upstep, cfg, cap in *. cbn [buf minCap count] in *. rewrite Hl. split; lia.
+  - destruct (Z.leb_spec (count d) 0); [exact Hrefl|].
+    unfold crash_or. destruct (pop_front nilv d) as [[d' x]|] eqn:E; [|exact Hrefl]. cbn [fst].
+    unfold pop_front in E. unbind. subst d'.
+    match goal with Hg : shrink_if_excess _ ?dm = Some _, Hs : setz _ _ _ = Some _ |- _ =>
+      pose proof (setz_length _ _ _ _ Hs) as Hl;
+      destruct (shrink_upper dm _ Hg) as [S0 S1] end.
+    unfold upstep, cap in *. cbn [buf count] in *. rewrite Hl in S1. split; lia.
+  - destruct (Z.leb_spec (count d) 0); [exact Hrefl|].
+    unfold crash_or. destruct (pop_back nilv d) as [[d' x]|] eqn:E; [|exact Hrefl]. cbn [fst].
+    unfold pop_back in E. unbind. subst d'.
+    match goal with Hg : shrink_if_excess _ ?dm = Some _, Hs : setz _ _ _ = Some _ |- _ =>
+      pose proof (setz_length _ _ _ _ Hs) as Hl;
+      destruct (shrink_upper dm _ Hg) as [S0 S1] end.
+    unfold upstep, cap in *. cbn [buf count] in *. rewrite Hl in S1. split; lia.
+  - destruct (count d <=? 0); [exact Hrefl|]. unfold crash_or. destruct (getz _ _); exact Hrefl.
+  - destruct (count d <=? 0); [exact Hrefl|]. unfold crash_or. destruct (getz _ _); exact Hrefl.
+  - destruct ((i <? 0) || (i >=? count d)); [exact Hrefl|]. unfold crash_or. destruct (getz _ _); exact Hrefl.
+  - destruct ((i <? 0) || (i >=? count d)); [exact Hrefl|]. unfold crash_or.
+    destruct (setz _ _ _) as [b|] eqn:E; [|exact Hrefl]. cbn [fst].
+    apply upstep_same; [unfold cap; cbn [buf]; apply (setz_length _ _ _ _ E)|cbn [count]; lia].
+  - unfold crash_or. destruct (clear nilv d) as [d'|] eqn:E; [|exact Hrefl]. cbn [fst].
+    unfold clear in E. unbind. subst d'.
+    match goal with Hl : clear_loop _ _ _ _ _ _ = Some _ |- _ => apply clear_loop_length in Hl;
+      apply upstep_same; [unfold cap; cbn [buf]; exact Hl|cbn [count]; lia] end.
+  - unfold crash_or. destruct (rotate nilv d n) as [d'|] eqn:E; [|exact Hrefl]. cbn [fst].
+    unfold rotate in E.
+    destruct (count d <=? 1); [injection E as <-; exact Hrefl|].
+    destruct (Z.rem n (count d) =? 0); [injection E as <-; exact Hrefl|].
+    destruct (head d =? tail d); [injection E as <-; apply upstep_same; [reflexivity|cbn [count]; lia]|].
+    unbind; destruct p as [[b h] t]; injection E as <-;
+      (apply upstep_same; [unfold cap; cbn [buf]|cbn [count]; lia]);
+      match goal with
+      | Hr : rot_back_to_front _ _ _ _ _ _ = _ |- _ => exact (rot_btf_length _ _ _ _ _ _ _ _ Hr)
+      | Hr : rot_front_to_back _ _ _ _ _ _ = _ |- _ => exact (rot_ftb_length _ _ _ _ _ _ _ _ Hr)
+      end.
+  - cbn [fst]. apply upstep_same; [reflexivity|cbn [set_min_cap count]; lia].
+Qed.
+
 (* SetMinCapacity itself changes nothing but the minimum *)
 Lemma set_min_cap_cap d e :
   cap (set_min_cap d e) = cap d /\ count (set_min_cap d e) = count d /\
